@@ -19,7 +19,8 @@ def check(prop, tier, seed):
     if hit is not None:
         hit["cache_hit"] = True
         from . import store
-        return [hit, store.run_suite("smc_fault", tier, seed)]
+        from . import cs
+        return [hit, store.run_suite("smc_fault", tier, seed)] + cs.check("C19", tier, seed)
     scripts = G.fault_scripts(seed, params["n"], 61000000) + G.fault_churn_scripts(seed, params["churn_per_kind"], 62000000)
     workdir = os.path.join(C.OUT, "work", key)
     C.sh(["rm", "-rf", workdir])
@@ -44,4 +45,5 @@ def check(prop, tier, seed):
     C.cache_put(key, res)
     # Store_L1 with destructor-panic operations, model-checked and replayed
     from . import store
-    return [res, store.run_suite("smc_fault", tier, seed)]
+    from . import cs
+    return [res, store.run_suite("smc_fault", tier, seed)] + cs.check("C19", tier, seed)
